@@ -94,9 +94,9 @@ Proof.
     destruct (recover_pubkey f12_msg f12_sig) as [pk'|] eqn:E; [|discriminate H2].
     assert (E2 : bytes_eqb pk' f12_pk = true).
     { clear - H2. revert H2. generalize f12_pk. induction pk' as [|a l IH]; intros [|b q]; cbn [bytes_eqb]; try discriminate; auto.
-      intros H. apply andb_true_iff in H as [A B]. apply andb_true_iff. split; [lia|]. apply IH. exact B. }
+      intros H. apply andb_true_iff in H as [A B]. apply andb_true_iff. split; [rewrite Z.eqb_sym; exact A|]. apply IH. exact B. }
     rewrite E2. cbn [negb]. rewrite H1. cbn [negb].
     unfold verify_signature. rewrite H0, H1, E, H2. reflexivity.
   - unfold f12_sig. rewrite sig_bytes_s by (vm_compute; split; [intro; discriminate|reflexivity]).
-    pose proof n_half. lia.
+    pose proof n_half. assert (0 < halfOrder) by reflexivity. lia.
 Qed.
